@@ -28,7 +28,7 @@ Table == LET seq == TLCEval(SetToSeq(Scenarios)) IN
             [base |-> s.base, mut |-> s.mut, route |-> s.route, content |-> ContentOf(s),
              effective |-> Effective(Bases[s.base], s.mut), default |-> (s.mut = None /\ s.route = R0(Bases[s.base]))]])
 
-Factors == {"cont", "lit", "br", "via", "perm", "alias"}
+Factors == {"cont", "lit", "br", "via", "perm", "alias", "dflt", "sub"}
 RouteDiff(r1, r2) == {f \in Factors : r1[f] # r2[f]}
 HiddenDiff(h1, h2) == {f \in {"num", "index", "branch"} : h1[f] # h2[f]}
 
@@ -116,7 +116,7 @@ EditJudge(q) == LET f == EditClauses(q) IN
                  valid |-> q.s.mut \in MutsOf(Bases[q.s.base])]
 
 Step(q) ==
-  CASE q.k = "scenarios" -> [table |-> Table]
+  CASE q.k = "scenarios" -> [table |-> Table, defaults |-> Labels0]
     [] q.k = "edit" -> EditJudge(q)
     [] q.k = "judge" -> Judge(q.obs, q.impl)
     [] q.k = "fit" -> FitJudge(q.obs)
